@@ -169,7 +169,9 @@ claim("C12", "exploration",
       "executed from an arbitrary symbolic OS state (tty attributes, status flags, SIGINT handler, wake-up fd, open-fd count, cursor, "
       "alternate screen) - __exit__ both as after a normal end of the block and with opaque exception arguments whose isinstance/issubclass "
       "tests go both ways - and every component is proved restored; _nonblocking_read and send are proved to leave flags/handler "
-      "unchanged on every exit (return, BlockingIOError, other OSError, exceptions escaping _send).  Bounded: 2 945 / 25 000 scenarios "
+      "unchanged on every exit (return, BlockingIOError, other OSError, exceptions escaping _send); render_to_terminal of both window "
+      "classes is proved (loop invariants carrying the OS ghost state; any array, cache, cursor_pos and terminal size >= 0, 0x0 included) "
+      "to leave a visible cursor visible and every other restored component as it was.  Bounded: 3 400 / 25 000 scenarios "
       "on a real pty with snapshots (exceptions after every body prefix, nesting, threads, real SIGINT).",
       "Level is exploration: the OS/blessed contracts are assumed, signals between two bytecodes of __enter__/__exit__ are not covered, "
       "and there is a listed known finding (pipe leak of threadsafe_event_trigger).",
